@@ -23,12 +23,18 @@ type c06Opt struct {
 var c06OptForms = []string{"destr", "named", "hash"}
 var c06OptStates = []string{"v", "missing", "nil"}
 
-func c06NOpt(ctx core.Ctx) int { return 3*81*2 + 3*2 }
+func c06NOpt(ctx core.Ctx) int { return 3*81*2 + 3*2 + 3*2*2 }
 
 func c06BuildOpt(i int) c06Case {
 	o := c06Opt{Entry: []string{"vue", "file"}[i%2]}
 	i /= 2
-	if i >= 3*81 {
+	if i >= 3*81+3 {
+		// an include / a <template v-html> written in the slot content of a slot that is filled per loop iteration
+		j := i - 3*81 - 3
+		o.Shape = []string{"loop-include", "loop-vhtml"}[j%2]
+		o.Form = c06OptForms[(j/2)%3]
+		o.Notes = []string{"v:n0", "v:n1", "v:n2"}
+	} else if i >= 3*81 {
 		o.Shape = "twice"
 		o.Form = c06OptForms[(i-3*81)%3]
 	} else {
@@ -60,8 +66,25 @@ func c06ExecOpt(c c06Case, o *core.Obs) {
 	default:
 		page = `<template #cell="p"><b data-m="L:{{ p.label }}">{{ p.label }}</b><em v-if="p.note" data-m="N:{{ p.note }}">{{ p.note }}</em><u v-if="p.count" data-m="C:{{ p.count }}">{{ p.count }}</u></template>`
 	}
+	extra := map[string]string{}
+	if op.Shape == "loop-include" || op.Shape == "loop-vhtml" {
+		lbl, note := "p.label", "p.note"
+		open := `<template v-slot:cell="p">`
+		switch op.Form {
+		case "destr":
+			lbl, note, open = "label", "note", `<template v-slot:cell="{ label, note }">`
+		case "hash":
+			open = `<template #cell="p">`
+		}
+		if op.Shape == "loop-include" {
+			page = open + `<template include="badge.vuego" :label="` + lbl + `" note="{{ ` + note + ` }}"></template></template>`
+			extra["badge.vuego"] = `<b data-m="L:{{ label }}">{{ label }}</b><em data-m="N:{{ note }}">{{ note }}</em>`
+		} else {
+			page = open + `<b data-m="L:{{ ` + lbl + ` }}"><template v-html="` + lbl + `"></template></b><em data-m="N:{{ ` + note + ` }}" v-html="` + note + `"></em></template>`
+		}
+	}
 	page = `<template include="comp.vuego" :rows="rows">` + page + `</template>`
-	if op.Shape == "loop" {
+	if op.Shape == "loop" || op.Shape == "loop-include" || op.Shape == "loop-vhtml" {
 		comp = `<ul data-m="comp"><li v-for="row in rows"><slot name="cell" :label="row.label" :note="row.note">FB</slot></li></ul>`
 		var rows []any
 		for r, st := range op.Notes {
@@ -83,6 +106,9 @@ func c06ExecOpt(c c06Case, o *core.Obs) {
 		data["rows"] = []any{}
 	}
 	files := map[string]string{"page.vuego": page, "comp.vuego": comp}
+	for k, v := range extra {
+		files[k] = v
+	}
 	var out string
 	var err error
 	if op.Entry == "vue" {
